@@ -115,6 +115,9 @@ func (vc *VC) evalIdent(s *State, id *ast.Ident) *Term {
 		return constTerm(o.Val(), o.Type())
 	case *types.Var:
 		if o.Parent() == o.Pkg().Scope() { // package-level var
+			if vc.prog.AddrTakenGlobals[o] {
+				return vc.loadPtr(s, o.Type(), vc.globalAddr(o))
+			}
 			if !vc.prog.MutableGlobals[o] {
 				if _, hasInit := vc.prog.GlobalInit[o]; !hasInit {
 					if _, known := vc.prog.GlobalInfo[o]; known {
@@ -234,7 +237,7 @@ func (vc *VC) evalAddrOf(s *State, x *ast.UnaryExpr) *Term {
 		obj := vc.frame().info.ObjectOf(y)
 		if v, ok := obj.(*types.Var); ok {
 			if v.Parent() == v.Pkg().Scope() {
-				vc.unsupported(x, "address of global")
+				return vc.globalAddr(v)
 			}
 			if !vc.boxed[obj] {
 				vc.unsupported(x, "address of unboxed variable "+y.Name)
@@ -474,6 +477,12 @@ func (vc *VC) evalIndex(s *State, x *ast.IndexExpr, want int) []*Term {
 	// generic instantiation f[T] not supported
 	switch u := bt.Underlying().(type) {
 	case *types.Map:
+		if v, ok, done := vc.constMapLookup(s, x, u); done {
+			if want == 2 {
+				return []*Term{v, ok}
+			}
+			return []*Term{v}
+		}
 		m := vc.eval(s, x.X)
 		k := vc.eval(s, x.Index)
 		v, ok := vc.mapGet(s, u, m, k)
@@ -744,6 +753,10 @@ func (vc *VC) assign(s *State, lhs ast.Expr, v *Term) {
 
 func (vc *VC) setVar(s *State, o *types.Var, v *Term) {
 	if o.Pkg() != nil && o.Parent() == o.Pkg().Scope() {
+		if vc.prog.AddrTakenGlobals[o] {
+			vc.storePtr(s, o.Type(), vc.globalAddr(o), v)
+			return
+		}
 		vc.writeAllowed(s, vc.globalName(o), nil)
 		s.heap[vc.globalName(o)] = v
 		vc.heapSorts[vc.globalName(o)] = sortOf(o.Type())
@@ -752,7 +765,7 @@ func (vc *VC) setVar(s *State, o *types.Var, v *Term) {
 	if vc.boxed[o] {
 		ref, ok := s.env[o]
 		if !ok {
-			ref = vc.allocRef(s, o.Name())
+			ref = vc.allocRef(s, o.Name(), typeID(o.Type()))
 			s.env[o] = ref
 		}
 		vc.storePtr(s, o.Type(), ref, v)
@@ -848,4 +861,72 @@ func lastSeg(s string) string {
 		return s[i+1:]
 	}
 	return s
+}
+
+// globalAddr: the address of a package-level variable whose address is taken somewhere: a fixed allocated reference.
+func (vc *VC) globalAddr(o *types.Var) *Term {
+	name := "gaddr." + smtName(o.Pkg().Name()+"."+o.Name())
+	c := Const(name, SInt)
+	if !vc.gaddrSeen[name] {
+		vc.gaddrSeen[name] = true
+		if a := vc.epochAlloc["0"]; a != nil {
+			vc.bgFacts = append(vc.bgFacts, And(Gt(c, IntLit(0)), Lt(c, a)))
+		}
+		for other := range vc.gaddrSeen {
+			if other != name {
+				vc.bgFacts = append(vc.bgFacts, Not(Eq(c, Const(other, SInt))))
+			}
+		}
+	}
+	return c
+}
+
+// constMapLookup: m[k] where m is a package-level map that is never assigned after its initialiser, a composite
+// literal with constant keys and values, and is never written through: the lookup is an if-then-else chain.
+func (vc *VC) constMapLookup(s *State, x *ast.IndexExpr, mt *types.Map) (v, ok *Term, done bool) {
+	var o *types.Var
+	switch y := ast.Unparen(x.X).(type) {
+	case *ast.Ident:
+		o, _ = vc.frame().info.ObjectOf(y).(*types.Var)
+	case *ast.SelectorExpr:
+		if _, isSel := vc.frame().info.Selections[y]; !isSel {
+			o, _ = vc.frame().info.ObjectOf(y.Sel).(*types.Var)
+		}
+	}
+	if o == nil || o.Pkg() == nil || o.Parent() != o.Pkg().Scope() || vc.prog.MutableGlobals[o] || vc.prog.WrittenMaps[o] {
+		return nil, nil, false
+	}
+	init, has := vc.prog.GlobalInit[o]
+	if !has {
+		return nil, nil, false
+	}
+	cl, isLit := ast.Unparen(init).(*ast.CompositeLit)
+	if !isLit {
+		return nil, nil, false
+	}
+	info := vc.prog.GlobalInfo[o].TypesInfo
+	type kv struct{ k, v *Term }
+	var kvs []kv
+	for _, el := range cl.Elts {
+		e, isKV := el.(*ast.KeyValueExpr)
+		if !isKV {
+			return nil, nil, false
+		}
+		ktv, ok1 := info.Types[e.Key]
+		vtv, ok2 := info.Types[e.Value]
+		if !ok1 || !ok2 || ktv.Value == nil || vtv.Value == nil {
+			return nil, nil, false
+		}
+		kvs = append(kvs, kv{constTerm(ktv.Value, ktv.Type), constTerm(vtv.Value, vtv.Type)})
+	}
+	k := vc.eval(s, x.Index)
+	v = zeroValue(mt.Elem())
+	ok = False
+	for i := len(kvs) - 1; i >= 0; i-- {
+		c := Eq(k, kvs[i].k)
+		v = Ite(c, kvs[i].v, v)
+		ok = Or(c, ok)
+	}
+	vc.prog.Assumed["package-level map "+o.Pkg().Name()+"."+o.Name()+" is a constant table (never assigned or written in the module; checked syntactically)"] = true
+	return s.name("tbl", v), ok, true
 }
